@@ -213,3 +213,33 @@ func heavyPair(b1, b2 string) bool {
 	drawFree := func(x string) bool { return x == "criteriaOmission" || x == "preferenceReversal" || x == "anchoring" }
 	return !(drawFree(b1) && drawFree(b2))
 }
+
+//verif:bounds C07 HC07_compose_L3 (thorough tier only): every method x every ordered triple (with repetition) of six bias variants (omission, reversal, fatigue, concealment, mixing, anchoring/newCriterion), fixed draw patterns and fixed numeric parameters (shape-level), same request shapes
+//verif:harness HC07_compose_L3 mode=REAL tier=thorough reach=all-fired,evaluate-returned
+func HC07_compose_L3() {
+	method := rt.OneOf("method", Methods...)
+	six := []string{"criteriaOmission", "preferenceReversal", "fatigue", "criteriaConcealment", "criteriaMixing", "anchoring/newCriterion"}
+	vs := []string{rt.OneOf("bias1", six...), rt.OneOf("bias2", six...), rt.OneOf("bias3", six...)}
+	o := c07opts(method, vs)
+	o.K = 3
+	rt.SetDrawMode(rt.IntRange("draw-pattern", 1, 2))
+	o.ConcreteParams = true
+	dm := Request(o)
+	for i, v := range vs {
+		dm.Biases = append(dm.Biases, Bias(v, DefaultPropsOpt(v, dm, []string{"b1.", "b2.", "b3."}[i], true)))
+	}
+	c07known(method, vs)
+	out := Decide(dm)
+	rt.Assert("C07.answered-with-a-ranking", !out.Panicked)
+	if out.Panicked {
+		return
+	}
+	if len(out.Rec.Steps) == 3 && !out.Rec.Steps[2].Panicked {
+		rt.Reach("all-fired")
+	}
+	if out.Rec.EvaluateReturned {
+		rt.Reach("evaluate-returned")
+	}
+	checkSteps("C07", dm, out, vs)
+	vh.WellFormed("C07.result", &out.Choice.Result, dm.ChoseToMake)
+}
